@@ -394,6 +394,12 @@ def run_check(pid, spec, tier, seed, t0):
     known_lines = []
     # 1. harness (rebuilt against /repo's working tree; the translator needs it too)
     okc, outc = cargo_step()
+    if okc and spec.get('needs_parol_bin'):
+        # the user-facing `parol` binary (e.g. its export subcommand), rebuilt from /repo's working tree
+        env = dict(os.environ, CARGO_NET_OFFLINE='true', CARGO_TARGET_DIR=os.path.join(VERIF, 'target', 'ls'), RUSTFLAGS='--cfg parol_verif')
+        p = subprocess.run('cargo build -p parol --bin parol --offline', shell=True, cwd=REPO, env=env,
+                           stdout=subprocess.PIPE, stderr=subprocess.STDOUT, text=True, timeout=3000)
+        okc, outc = p.returncode == 0, p.stdout[-6000:]
     if not okc:
         # /repo no longer builds with the hooks: nothing can be evaluated
         path = write_replay(pid, 0, dict(broken='harness build against /repo failed', log=outc[-3000:]), kind='build')
